@@ -136,6 +136,10 @@ Section Conf.
     2:{ split; [exact C|]. intros E; inversion E; subst. pose proof (np_edge_of_points_err not61 _ _ _ _ Hs) as G. discriminate. }
     apply bind_lift_inv in H. destruct H as [(e3 & _ & H) | (-> & [(c & ->) | (s & -> & Hs)])]; [|split; [exact C | discriminate] |].
     2:{ split; [exact C|]. intros E; inversion E; subst. pose proof (np_edge_of_points_err not61 _ _ _ _ Hs) as G. discriminate. }
+    (* the three constructibility checks of fix 361bbb9 (read only; Triangle3D::new cannot panic) *)
+    apply bind_lift_inv in H. destruct H as [(k1 & _ & H) | (-> & [(c & ->) | (s & -> & Hs)])]; [|split; [exact C | discriminate] | exfalso; eapply tri_new_no_panic; exact Hs].
+    apply bind_lift_inv in H. destruct H as [(k2 & _ & H) | (-> & [(c & ->) | (s & -> & Hs)])]; [|split; [exact C | discriminate] | exfalso; eapply tri_new_no_panic; exact Hs].
+    apply bind_lift_inv in H. destruct H as [(k3 & _ & H) | (-> & [(c & ->) | (s & -> & Hs)])]; [|split; [exact C | discriminate] | exfalso; eapply tri_new_no_panic; exact Hs].
     apply mbind_inv in H. destruct H as [(u & M1 & H1 & H) | [(c & H1 & ->) | (s & H1 & ->)]].
     - destruct (cnt_invalidate_live i M M1 (Ok u) (ex_intro _ t (conj Et Ev)) C H1) as (C1 & _ & _).
       revert H. match goal with |- ?f M1 = _ -> _ => assert (G1 : Pres Rcnt f) by (repeat first [apply cnt_mark | pc_step]);
@@ -191,6 +195,9 @@ Section Conf.
     apply bind_lift_inv in H. destruct H as [(e2 & _ & H) | (-> & [(c & ->) | (s & -> & Hs)])]; [|apply Herr | eapply Hq; [|exact Hs]; apply np_edge_of_points; reflexivity].
     apply bind_lift_inv in H. destruct H as [(e3 & _ & H) | (-> & [(c & ->) | (s & -> & Hs)])]; [|apply Herr | eapply Hq; [|exact Hs]; apply np_edge_of_points; reflexivity].
     apply bind_lift_inv in H. destruct H as [(e4 & _ & H) | (-> & [(c & ->) | (s & -> & Hs)])]; [|apply Herr | eapply Hq; [|exact Hs]; apply np_edge_of_points; reflexivity].
+    (* the two constructibility checks of fix 361bbb9 (read only; Triangle3D::new cannot panic) *)
+    apply bind_lift_inv in H. destruct H as [(k1 & _ & H) | (-> & [(c & ->) | (s & -> & Hs)])]; [|apply Herr | exfalso; eapply tri_new_no_panic; exact Hs].
+    apply bind_lift_inv in H. destruct H as [(k2 & _ & H) | (-> & [(c & ->) | (s & -> & Hs)])]; [|apply Herr | exfalso; eapply tri_new_no_panic; exact Hs].
     (* the two invalidations hit live slots *)
     apply mbind_inv in H. destruct H as [(u1 & M1 & H1 & H) | [(c & H1 & ->) | (s & H1 & ->)]];
       [| destruct (cnt_invalidate_live i M M' _ (ex_intro _ t (conj Et Ev)) C H1) as (_ & G & _); discriminate
